@@ -70,7 +70,9 @@ def cat(paths, outpath):
                         # belongs to is treated as crashed
                         try:
                             line = raw.decode("utf-8")
-                            json.loads(line)
+                            obj = json.loads(line)
+                            if not (isinstance(obj, dict) and ("ev" in obj or "k" in obj)):
+                                raise ValueError("not a record")      # garbage that happens to parse (e.g. "{}")
                         except Exception:
                             line = '{"ev":"crash","sig":-2}\n'
                         if not line.endswith("\n"):
